@@ -5,6 +5,7 @@ import (
 	"math"
 	"path/filepath"
 	"regexp"
+	"sort"
 	"strings"
 	"time"
 )
@@ -319,6 +320,9 @@ func genRemoteCase(r *Rng) []Op {
 	g := newCmdGen(r, "C12")
 	ops := []Op{{"reset", false}}
 	ops = g.writeFile(ops, "src/a.wsp", g.lay, 1+r.Intn(3))
+	// a name that needs query escaping
+	odd := "src/" + []string{"x+y.wsp", "p&q=r.wsp", "50%.wsp", "a#b.wsp", "semi;colon.wsp", "sp@ce~.wsp"}[r.Intn(6)]
+	ops = g.writeFile(ops, odd, g.lay, 1)
 	ops = g.writeFile(ops, "src/it/f0.wsp", g.lay, 1+r.Intn(2))
 	ops = g.writeFile(ops, "src/it/f1.wsp", g.lay, 1+r.Intn(2))
 	ops = g.writeFile(ops, "dst/a.wsp", g.lay, 1+r.Intn(2))
@@ -328,6 +332,8 @@ func genRemoteCase(r *Rng) []Op {
 		if r.Chance(1, 4) {
 			file = "src/missing.wsp"
 			w = g.winAll()
+		} else if r.Chance(1, 3) {
+			file = odd
 		}
 		for _, rm := range []string{"", " remote=1"} {
 			ops = append(ops, Op{fmt.Sprintf("cmd view src=%s header=1 %s%s", file, w, rm), true})
@@ -353,7 +359,9 @@ func genRemoteCase(r *Rng) []Op {
 	// globbing through the server
 	pat := []string{"*.wsp", "it/*.wsp", "nomatch*"}[r.Intn(3)]
 	var pairs []string
-	for _, n := range []string{"a.wsp", "it/f0.wsp", "it/f1.wsp"} {
+	all := []string{"a.wsp", strings.TrimPrefix(odd, "src/"), "it/f0.wsp", "it/f1.wsp"}
+	sort.Strings(all)
+	for _, n := range all {
 		if ok, _ := pathMatch(pat, n); ok {
 			pairs = append(pairs, fmt.Sprintf("src/%s>dst/%s", n, n))
 		}
